@@ -613,6 +613,9 @@ func plRun(job plJob) (res plResult) {
 		}
 		g := w.gate
 		w.gate = ""
+		// (looked at BEFORE the worker is let go: once released it may take the queued datagram at any moment, also
+		// before this goroutine's next statement - GOMAXPROCS(1) does not rule out preemption)
+		emptyQ := ad.qlen() == 0
 		close(w.resume)
 		if g == "Top" && w.retiring {
 			// told to quit: at its select it may take a datagram (if one is queued) or leave - without a hook
@@ -630,7 +633,7 @@ func plRun(job plJob) (res plResult) {
 			}
 			return
 		}
-		if g == "Top" && ad.qlen() == 0 {
+		if g == "Top" && emptyQ {
 			waiting++ // it will block on the empty queue without reaching a hook
 			runtime.Gosched()
 			return
